@@ -89,4 +89,9 @@ def triCertificate (p q a b c : V3 α) (slack : α) : Bool :=
   let pq := V3.sub p q
   decide (V3.dot pq (V3.sub a q) ≤ slack) && decide (V3.dot pq (V3.sub b q) ≤ slack) && decide (V3.dot pq (V3.sub c q) ≤ slack)
 
+/-- the angle filter of `Mesh::project_with_tol`: the line from the closest surface point to the test
+    point makes an angle below `maxAngle` with the face normal, whichever way the normal points -/
+def angleFilter [Scalar α] (angle maxAngle : α) : Bool :=
+  decide (angle < maxAngle) || decide (Scalar.pi - maxAngle < angle)
+
 end
